@@ -177,9 +177,10 @@ func (f *FibStrategyTree) InsertNextHopEnc(name enc.Name, nexthop uint64, cost u
 	if entry.name == nil {
 		entry.name = name
 	}
-	for _, existingNexthop := range entry.nexthops {
+	for i, existingNexthop := range entry.nexthops {
 		if existingNexthop.Nexthop == nexthop {
-			existingNexthop.Cost = cost
+			// Lookup results share the nexthop records, so replace instead of updating in place
+			entry.nexthops[i] = &FibNextHopEntry{Nexthop: nexthop, Cost: cost}
 			return
 		}
 	}
